@@ -2,5 +2,5 @@
 # tools/fullpass.sh [tier] [seed] [parallel]  -- run every check on /repo, summarise exits; evidence/*.json is rewritten by the checks
 tier=${1:-quick}; seed=${2:-0}; par=${3:-4}
 cd /verif; mkdir -p build/fullpass
-for i in $(seq -w 1 20); do echo C$i; done | VERIF_SEED=$seed xargs -P $par -I{} sh -c "VERIF_SEED=$seed ./check {} --tier $tier > build/fullpass/{}.$tier.$seed.log 2>&1; echo \"{} exit \$?\" >> build/fullpass/{}.$tier.$seed.log"
+for i in $(seq -w 1 20); do case " $SKIP " in *" C$i "*) ;; *) echo C$i;; esac; done | VERIF_SEED=$seed xargs -P $par -I{} sh -c "VERIF_SEED=$seed ./check {} --tier $tier > build/fullpass/{}.$tier.$seed.log 2>&1; echo \"{} exit \$?\" >> build/fullpass/{}.$tier.$seed.log"
 grep -h "exit\|VIOLATION\|BROKEN" build/fullpass/C*.$tier.$seed.log | grep -v "exit 0" ; echo "non-zero exits: $(grep -h ' exit ' build/fullpass/C*.$tier.$seed.log | grep -vc 'exit 0')"
